@@ -13,7 +13,9 @@
 (* Partners = 0, or over a seeded sample of K partners per descriptor, and   *)
 (* that the default codecs match themselves.  The pairs it visited are       *)
 (* emitted (VERIF_VEC) with the predicted result code and replayed into      *)
-(* fmtp.Parse(...).Match(...).                                               *)
+(* fmtp.Parse(...).Match(...).  Checks and emission use Impl = "intended",   *)
+(* the code as it is now; Impl = "asis" (CodecMatch_asis.cfg) is the pinned  *)
+(* code before the fmtp.go repair, kept as the documented counterexample.    *)
 EXTENDS CodecOps, Json, Randomization
 
 CONSTANTS Clocks,     \* sequence of clock rates, e.g. <<0, 8000, 48000, 90000>>
@@ -78,7 +80,8 @@ FamilySeq(f) ==
             ik == k2 % nk            im == k2 \div nk
         IN D(f.mimes[im + 1], Clocks[ik + 1], Chans[ic + 1], f.lines[il + 1])]
 
-\* mime types that are equal to "audio/opus" under EqualFold only ("$" = U+017F)
+\* mime types that are equal to "audio/opus" under EqualFold only ("$" = U+017F); with ToLower-keyed
+\* defaults (Impl = "asis") they made Match asymmetric
 Exotic == << D("audio/opu$", 0, 0, ""), D("audio/opu$", 48000, 2, "minptime=10;useinbandfec=1") >>
 
 \* RegisterDefaultCodecs (mediaengine.go), transcribed; the drivers read the real list at run time
@@ -126,7 +129,7 @@ PartnersOf(i) == IF Partners = 0 THEN i..N
                       \cup Sub(Partners - (2 * Partners) \div 3, i..N)
 
 \* Invariants: the transcribed Match satisfies the normative operators on every visited pair.
-\* (ModelSymmetric fails for Impl = "asis": see Exotic.)
+\* (ModelSymmetric fails for Impl = "asis", the pinned code before the repair: see Exotic.)
 ModelSymmetric       == a > 0 => \A j \in a..N : Code(a, j) \in SymmetricCodes
 ModelCaseInsensitive == a > 0 => \A j \in a..N : Code(a, j) \in CaseInsensitiveCodes
 ModelDefaultsSelfMatch == a >= FirstDefault => MatchP(Par[a], Par[a])
